@@ -175,33 +175,36 @@ func TestVerif_C02(t *testing.T) {
 		if !verifkit.Mine(ci) {
 			continue
 		}
-		r := verifkit.Rand("C02/random", ci)
-		start := starts[r.Intn(len(starts))]
-		var seq []int
-		nt := false
-		for k := 0; k < 30; k++ {
-			i := r.Intn(len(w.ops))
-			if r.Intn(3) == 0 {
-				i = len(w.ops) - 1 // step
+		ci := ci
+		verifkit.RunCase(rep, ci, func() {
+			r := verifkit.Rand("C02/random", ci)
+			start := starts[r.Intn(len(starts))]
+			var seq []int
+			nt := false
+			for k := 0; k < 30; k++ {
+				i := r.Intn(len(w.ops))
+				if r.Intn(3) == 0 {
+					i = len(w.ops) - 1 // step
+				}
+				seq = append(seq, i)
+				if w.ops[i].Kind == "headers" && (len(w.ops[i].Names) > 3 || w.ops[i].Names == "") {
+					nt = true
+				}
 			}
-			seq = append(seq, i)
-			if w.ops[i].Kind == "headers" && (len(w.ops[i].Names) > 3 || w.ops[i].Names == "") {
-				nt = true
+			s, err := c02Run(w, start, seq)
+			if err != nil {
+				rep.Inconc(ci, err.Error())
+				return
 			}
-		}
-		s, err := c02Run(w, start, seq)
-		if err != nil {
-			rep.Inconc(ci, err.Error())
-			continue
-		}
-		report(ci, s, start, seq)
-		rep.Event("random_sequences", 1)
-		rep.Event("steps_probed", int64(s.steps))
-		rep.Event("max_height_reached", 0)
-		rep.Case(start+c02SeqString(w, seq), nt)
-		if rep.WantSample() {
-			rep.Sample(map[string]interface{}{"start": start, "ops": c02SeqString(w, seq), "final_height": s.e.node.blocks.LastHeight(), "callbacks": s.e.log.strings(0)})
-		}
+			report(ci, s, start, seq)
+			rep.Event("random_sequences", 1)
+			rep.Event("steps_probed", int64(s.steps))
+			rep.Event("max_height_reached", 0)
+			rep.Case(start+c02SeqString(w, seq), nt)
+			if rep.WantSample() {
+				rep.Sample(map[string]interface{}{"start": start, "ops": c02SeqString(w, seq), "final_height": s.e.node.blocks.LastHeight(), "callbacks": s.e.log.strings(0)})
+			}
+		})
 	}
 }
 
